@@ -6,6 +6,10 @@ Decides (static, all paths / all inputs):
   C05-PROG  every cursor-driven while loop on the receive path strictly advances its cursor
             on every path back to the loop head.
   C05-COST  wire-controlled loop nests are tied to the datagram length.
+  C05-TIMER every _tN_start() is preceded on every path by _tN_cancel() or a handle-is-None guard (typestate; a repeated
+            chunk cannot trip the starters' assert)
+  C05-SIGN  a counter decreased by peer-chosen lengths (_advertised_rwnd) is clamped with max(0, .) wherever it is serialised
+  C05-PROG also: a loop whose exit test is a serial comparison steps its cursor only with the modular helpers
 Does not decide: memory growth over histories, native-library behaviour, wall-clock.
 """
 from __future__ import annotations
